@@ -22,7 +22,7 @@ RULE = (
     "isolated faces, single triangle, icosahedron} x formats {UGRID, MPAS primal, MPAS dual, SCRIP, Exodus, ESMF, GEOS-CS (N=1,2,3), ICON, GeoJSON, shapefile, "
     "face-vertex arrays, topology dict} x dialect vectors with <= k deviations from the format's default (UGRID: start_index x fill x dtype x names x lon x optional "
     "tables; MPAS: padding x optional tables x coords; SCRIP: lon; Exodus: coord variable x blocks x radius x dtype; ESMF: start_index x centres x dtype x padding x "
-    "lon; vertices: container x latlon/xyz x layout; topology: fill x start_index x optional kwargs x lon), in memory and (k=0,1) through a NetCDF file. "
+    "lon; vertices: container x latlon/xyz x layout; topology: fill {INT_FILL,-1,none,0,999} x start_index x optional kwargs x lon; MPAS and ICON also x index dtype int32/int64), in memory, (k=0,1) through a NetCDF file, and (k<=1) as the SECOND open of the same in-memory source object. "
     "non-trivial = mixed face sizes or a non-default dialect; distinct = (format, mesh, dialect vector, medium)"
 )
 ASSUMPTIONS = [
@@ -38,11 +38,11 @@ MESH_Q = ["tetra", "cube", "cubesplit", "pyr5", "mixedpatch", "sizes38", "amstri
 MESH_T = MESH_Q + ["octa", "prism", "pyr8", "polecap", "icosa"]
 FORMATS = ["ugrid", "mpas", "scrip", "exodus", "esmf", "icon", "geojson", "shapefile", "vertices", "topology", "geos"]
 VERT_AXES = [("container", ["list", "tuple", "ndarray"]), ("latlon", [True, False]), ("layout", ["3d", "2d"])]
-TOPO_AXES = [("fill", ["INT_FILL", -1, None]), ("start_index", [0, 1]), ("extra", ["none", "edges", "centres", "edges+centres"]), ("lon", ["pm180", "0-360"])]
+TOPO_AXES = [("fill", ["INT_FILL", -1, None, 0, 999]), ("start_index", [0, 1]), ("extra", ["none", "edges", "centres", "edges+centres"]), ("lon", ["pm180", "0-360"])]
 
 
 def _vectors(fmt, k):
-    ax = {"ugrid": D.UGRID_AXES, "mpas": D.MPAS_AXES, "scrip": D.SCRIP_AXES, "exodus": D.EXODUS_AXES, "esmf": D.ESMF_AXES, "vertices": VERT_AXES, "topology": TOPO_AXES}.get(fmt)
+    ax = {"ugrid": D.UGRID_AXES, "mpas": D.MPAS_AXES, "scrip": D.SCRIP_AXES, "exodus": D.EXODUS_AXES, "esmf": D.ESMF_AXES, "icon": D.ICON_AXES, "vertices": VERT_AXES, "topology": TOPO_AXES}.get(fmt)
     if ax is None:
         return [()], None
     return D.vectors(ax, k), ax
@@ -102,7 +102,7 @@ def _write(fmt, m, kw, tmpdir):
     if fmt == "esmf":
         return D.esmf(m, **kw)
     if fmt == "icon":
-        return D.icon(m)
+        return D.icon(m, **kw)
     if fmt == "vertices":
         return D.face_vertices(m, **kw)
     if fmt == "topology":
@@ -221,14 +221,19 @@ def run_case(case):
                 media.append((True, None))
             if rev is not None and ndev <= 1 and fmt not in ("geojson", "shapefile"):
                 media.append((False, rev))
+            if ndev <= 1 and fmt not in ("geojson", "shapefile"):
+                media.append((False, "again"))
             for via_file, prior in media:
-                foc = {"vec": [str(x) for x in vec], "file": via_file, "after_other_source": prior is not None}
+                again = isinstance(prior, str)
+                if again:
+                    prior = None
+                foc = {"vec": [str(x) for x in vec], "file": via_file, "after_other_source": prior is not None, "second_open_of_same_source": again}
                 if "only" in case and foc != case["only"]:
                     continue
                 kw = dict(zip([a[0] for a in ax], vec)) if ax else {}
 
                 def bad(sig, msg, foc=foc, kw=kw):
-                    V.append({"oracle": "decode", "sig": sig + (":mixed" if mixed else ":uniform") + (":after-other-source" if foc["after_other_source"] else ""), "msg": "%s source of mesh %s, dialect %s%s%s: %s" % (fmt, case["mesh"], kw, " via NetCDF file" if foc["file"] else "", " (opened after the same mesh with reversed face order)" if foc["after_other_source"] else "", msg), "focus": dict(case, only=foc)})
+                    V.append({"oracle": "decode", "sig": sig + (":mixed" if mixed else ":uniform") + (":after-other-source" if foc["after_other_source"] else "") + (":second-open" if foc["second_open_of_same_source"] else ""), "msg": "%s source of mesh %s, dialect %s%s%s: %s" % (fmt, case["mesh"], kw, " via NetCDF file" if foc["file"] else "", " (opened after the same mesh with reversed face order)" if foc["after_other_source"] else (" (second open of the same in-memory source object)" if foc["second_open_of_same_source"] else ""), msg), "focus": dict(case, only=foc)})
 
                 pool.fresh()
                 if prior is not None:
@@ -251,7 +256,7 @@ def run_case(case):
                     elif fmt == "esmf":
                         r = D.esmf(m, **kw)
                     elif fmt == "icon":
-                        r = D.icon(m)
+                        r = D.icon(m, **kw)
                     elif fmt == "geojson":
                         r = D.geojson(m, os.path.join(tmpdir, "m.geojson"))
                     elif fmt == "shapefile":
@@ -271,6 +276,11 @@ def run_case(case):
                 res["states"].append(key)
                 if mixed or ndev:
                     res["nontrivial"].append(key)
+                if again:
+                    try:
+                        _open(fmt, src, vec, ax, tmpdir, False)
+                    except Exception:
+                        pass
                 try:
                     g = _open(fmt, src, vec, ax, tmpdir, via_file)
                 except Exception as e:
